@@ -73,7 +73,7 @@ pub fn record(pool_paths: &str, w: &mut dyn Write, seed: u64, n_events: usize) {
             } else if v["op"] == "poly" {
                 // Gen_Poly case: general-slope lattice polygon, holes never touch anything
                 // (scaled by 2 - exact - so that the fine-lattice query points also fall between its vertices)
-                (gj::parse(&json!({"t":"Polygon","ext":v["ext"],"holes":v["holes"]})).map(&|c| Coord { x: 2.0 * c.x, y: 2.0 * c.y }, true), 0, true)
+                (gj::parse(&json!({"t":"Polygon","ext":v["ext"],"holes":v["holes"]})).map(&|c| Coord { x: 2.0 * c.x, y: 2.0 * c.y }, true), v["touch"].as_i64().unwrap_or(0), true)
             } else {
                 continue;
             };
